@@ -86,11 +86,18 @@ def generate(ctx):
         ctx.write_gen("GenNglobCode.v", code_text)
         ctx.stats["translated_functions"] = code_facts["translated_functions"]
 
+    def regex_loop():
+        # the main loop of convert_nglob_to_regex, statement by statement (tied by proofs/NglobRegexTie.v)
+        from translator import gen_nglob_regex
+        text, rfacts = gen_nglob_regex.generate()
+        ctx.write_gen("GenNglobRegex.v", text)
+        ctx.stats["regex_loop_tree_size"] = rfacts["regex_loop_tree_size"]
+
     def batch():
         # record_change / will_change / process_nglob_changes / rescan_nglobs (tied by proofs/NglobBatchTie.v)
         c17_batch.generate_batch(ctx)
 
-    for step in (constants, code, batch):
+    for step in (constants, code, regex_loop, batch):
         try:
             step()
         except Exception as e:  # noqa: BLE001 - reported below
